@@ -799,16 +799,18 @@ class RefResolver(object):
         for part in parts:
             part = part.replace(u"~1", u"/").replace(u"~0", u"~")
 
-            if (
-                isinstance(document, Sequence) and
-                not isinstance(document, str) and
-                _ARRAY_INDEX.fullmatch(part)
-            ):
-                # Array indexes should be turned into integers
-                part = int(part)
             try:
+                if (
+                    isinstance(document, Sequence) and
+                    not isinstance(document, str) and
+                    _ARRAY_INDEX.fullmatch(part)
+                ):
+                    # Array indexes should be turned into integers.  A
+                    # digit string beyond the interpreter's int/str
+                    # conversion limit raises ValueError: no such index.
+                    part = int(part)
                 document = document[part]
-            except (TypeError, LookupError):
+            except (TypeError, LookupError, ValueError):
                 raise exceptions.RefResolutionError(
                     "Unresolvable JSON pointer: %r" % fragment
                 )
